@@ -74,7 +74,7 @@ func c09sScenario(p c09sParams, bound int) vh.SScenario {
 }
 
 func TestVerifC09S(t *testing.T) {
-	r := vres.Open("C09", "S")
+	r := vres.Open("C09", racePart("S"))
 	defer func() {
 		if err := r.Close(); err != nil {
 			t.Fatal(err)
